@@ -196,6 +196,7 @@ PROPS['C01']['claimed'] = True
 PROPS['C01']['builds'] = ['default', 'force-inprocess']
 PROPS['C01']['scenarios'] = (lambda old: (lambda tier, seed: old(tier, seed) + [{'build': b, 'args': ['bigvalue', '--tier', tier, '--seed', str(seed)], 'timeout': 3000}
                                                                                   for b in ['default', 'force-inprocess']]))(PROPS['C01']['scenarios'])
+PROPS['C01']['scenarios'] = (lambda old: (lambda tier, seed: old(tier, seed) + [{'args': ['sigrecv', '--tier', tier]}]))(PROPS['C01']['scenarios'])
 PROPS['C01']['rule'] += ('; plus typed values (one string, a sequence of medium-sized strings, halves next to an embedded sender) whose encoding lies on both sides of '
                          'every power of two from 1 MiB to 64 MiB (thorough: 256 MiB), through recv / try_recv_timeout / receiver set + to, on the OS and the in-process transport')
 PROPS['C01']['rule'] += ('; plus seeded (schema, value) pairs (nested options/sequences/tuples/enums/strings/ints, with embedded endpoints) sent through the real '
@@ -753,6 +754,7 @@ PROPS['C18'] = {
                  'C18.C18_shm_zero', 'C18.C18_shape', 'C18.C18_unsafe_inventory', 'Bounds.follow_spec', 'Frag.sendLoop_firstFits', 'Frag.recvMsg_shape'],
     'builds': ['default', 'memfd'],
     'scenarios': plus(frag_scen('c18', [4608, 8192], [4608, 8192, 65536, 0]), shm_scen(['default', 'memfd'], 120, 3000),
+                      lambda tier, seed: [{'args': ['sigrecv', '--tier', tier]}],  # reassembly interrupted by signals: every byte delivered was written by the transport
                       lambda tier, seed: [{'args': ['crash', '--shape', '1', '--tier', tier]}]),
     'search': search_frag,
     'rule': ('frag c18: lengths {0, 1, 8, 2001, M-1, M, M+1, M+F-1, M+F, M+F+1, M+3F+7, seeded < 8F} (M/F = first/follow-up packet capacity) x attachments '
